@@ -4,7 +4,12 @@ the names {a,b} up to the step bound, checks the clauses of C27 on the specifica
 open, underlying close exactly once at the last close, extra close is an error, underlying drop at most
 once per open) and emits every transition; each transition is replayed (pattern R) on
 cachedproducer.Wrap and cachedproducer.WrapAll over an underlying producer that only counts the
-OpenDB/Close/Drop calls reaching it."""
+OpenDB/Close/Drop calls reaching it and fails opens on demand (OpenFail).
+Concurrent mode (pattern S+T): for every call history up to 3 calls and every ordered pair of possible calls TLC emits a
+scenario; the harness issues the second call while the first is held inside its underlying OpenDB/Close/Drop and records the
+public calls and the calls reaching the underlying producer; CachedConcTrace.tla validates the order-independent clauses
+(underlying drops <= opens, underlying closes <= underlying opens, underlying opens <= OpenDB calls)."""
+from concurrent.futures import ThreadPoolExecutor
 import json
 import re
 
@@ -26,7 +31,12 @@ def root_signature(adapter, m):
 def run(c):
     cfg = c.pick("MC_CachedProducer_quick", "MC_CachedProducer_thorough")
     edges = c.path("cached_edges.ndjson")
-    res = c.tlc_must_pass("kvp", "CachedProducer", cfg=cfg, edges_out=edges, workers=c.pick(4, 6), timeout=c.pick(600, 3000))
+    conc_scen = c.path("cached_conc_scen.ndjson")
+    with ThreadPoolExecutor(max_workers=2) as ex:
+        f1 = ex.submit(c.tlc_must_pass, "kvp", "CachedProducer", cfg=cfg, edges_out=edges, workers=c.pick(3, 5), timeout=c.pick(600, 3000))
+        f2 = ex.submit(c.tlc_must_pass, "kvp", "CachedProducer", cfg=c.pick("MC_CachedProducer_conc_quick", "MC_CachedProducer_conc_thorough"), edges_out=conc_scen, workers=1, timeout=600)
+        c.harness()
+        res, res2 = f1.result(), f2.result()
     c.log("TLC: %d distinct states, %d transitions, %d edges emitted" % (res.distinct, res.generated, res.edges))
     c.guard("tlc_edges", res.edges)
     reports = {}
@@ -61,7 +71,7 @@ def run(c):
         walks += rep["walks"]
         sample = sample or rep.get("sample") or []
     ops = reports["cached-wrapall"]["ops"]
-    for op in ("open", "close", "drop"):
+    for op in ("open", "openfail", "close", "drop"):
         c.guard("op_" + op, ops.get(op, 0))
     # edges whose specified result is the interesting branch of each clause
     kinds = dict(same_store=0, extra_close_error=0, last_close=0, second_drop=0)
@@ -75,9 +85,34 @@ def run(c):
                 kinds["extra_close_error"] += 1
     for k in ("same_store", "extra_close_error"):
         c.guard(k, kinds[k])
+    # ---- concurrent mode
+    ctrace = c.path("cached_conc_trace.ndjson")
+    cstats = json.loads(c.vh(["cachedconc", conc_scen, ctrace], timeout=1800).stdout)
+    c.log("concurrent scenarios on the real code:", cstats)
+    for g in ("scenarios", "held_in_open", "held_in_close", "held_in_drop", "second_completed_while_first_held", "pair_drop_drop",
+              "pair_drop_open", "same_name_pairs"):
+        c.guard("conc_" + g, cstats.get(g, 0))
+    with open(ctrace) as f:
+        for line in f:
+            if line.startswith('{"error"'):
+                o = json.loads(line)
+                c.violation("concurrent-calls", "conc:failure", "overlapping calls made the caching producer fail: %s" % o["error"], replay=o)
+                break
+    rr = vlib.validate_scenarios(c, "kvp", "CachedConcTrace", ctrace, chunks=c.pick(2, 4))
+    for rej in rr["rejections"]:
+        recd = rej["record"]
+        reset = rej["scenario"][0]
+        sig = "conc:%s-not-allowed:%s-during-%s" % (recd.get("op") if isinstance(recd, dict) else "?", reset["y"]["op"], reset["x"]["op"])
+        c.violation("concurrent-calls", sig,
+                    "%s: after the calls %s, %s(%s) was issued while %s(%s) was held inside its underlying call: the recorded %s is not "
+                    "allowed by CachedConcTrace.tla (line %d of the scenario)" % (
+                        reset["mode"], json.dumps([[h["op"], h["n"]] for h in reset["hist"]]), reset["y"]["op"], reset["y"]["n"],
+                        reset["x"]["op"], reset["x"]["n"], json.dumps(recd), rej["line"]), replay=rej)
     return c.finish("model_checking", dict(
         states=res.distinct, transitions=res.generated,
-        traces_validated_against_impl=walks,
+        traces_validated_against_impl=walks + rr["scenarios"],
+        concurrent=dict(scenarios_enumerated_by_tlc=res2.edges, harness=cstats, trace_lines_validated=rr["validated_lines"],
+                        rejections=len(rr["rejections"])),
         edges_replayed_on_impl=applied,
         exhaustive=True,
         rule="complete tree of open/close/drop call sequences of CachedProducer.tla for cfg %s; every transition executed on "
@@ -86,5 +121,8 @@ def run(c):
         replay=reports, clause_branches=kinds,
         samples=sample,
     ), assumptions=["Close/Drop are issued on the store most recently returned by OpenDB(name); using a store after its last close is outside the statement",
+                    "concurrent mode: only the clauses that do not depend on the order of overlapping calls are checked (drops <= opens, "
+                    "closes <= underlying opens, underlying opens <= OpenDB calls); one underlying call is held at a time",
+                    "whether a failed OpenDB re-arms the underlying Drop is left open (Drop is not explored between a failed and the next successful open)",
                     "the reference count itself is private: it is observed through the underlying Close counter and the error result",
                     "TLC/SANY/Json module trusted; Go projection = counters of the underlying mock producer"])
